@@ -10,12 +10,14 @@ structure NumOps.Lawful {α : Type} (N : NumOps α) : Prop where
   add_assoc : ∀ a b c, N.add (N.add a b) c = N.add a (N.add b c)
   add_comm : ∀ a b, N.add a b = N.add b a
   zero_add : ∀ a, N.add N.zero a = a
+  /-- the start value of `Iterator::sum` is the zero (true in exact arithmetic; in `f64` it is `-0.0`) -/
+  sumInit_eq : N.sumInit = N.zero
 
 theorem intOps_lawful : intOps.Lawful :=
-  ⟨fun a b c => Int.add_assoc a b c, fun a b => Int.add_comm a b, fun a => Int.zero_add a⟩
+  ⟨fun a b c => Int.add_assoc a b c, fun a b => Int.add_comm a b, fun a => Int.zero_add a, rfl⟩
 
 theorem ratOps_lawful : ratOps.Lawful :=
-  ⟨fun a b c => Rat.add_assoc a b c, fun a b => Rat.add_comm a b, fun a => Rat.zero_add a⟩
+  ⟨fun a b c => Rat.add_assoc a b c, fun a b => Rat.add_comm a b, fun a => Rat.zero_add a, rfl⟩
 
 /-! ## Count -/
 
@@ -82,8 +84,8 @@ theorem averageG_mergeable' {α : Type} (N : NumOps α) (hN : N.Lawful) :
     show (N.add a.1 b.1, a.2 + b.2) = (N.add b.1 a.1, b.2 + a.2)
     rw [hN.add_comm, Nat.add_comm]
   · intro xs
-    show (xs.foldl (fun a v => N.add a v) N.zero, xs.length) = (averageG N).foldAdd (N.zero, 0) xs
-    rw [averageG_foldAdd]; simp
+    show (xs.foldl (fun a v => N.add a v) N.sumInit, xs.length) = (averageG N).foldAdd (N.zero, 0) xs
+    rw [hN.sumInit_eq, averageG_foldAdd]; simp
 
 /-! ## Min / Max -/
 
